@@ -78,7 +78,10 @@ def is_facebook_post_url(url):
 
 
 def is_facebook_link(url):
-    splitted = safe_urlsplit(url)
+    try:
+        splitted = safe_urlsplit(url)
+    except ValueError:
+        return False
 
     if not splitted.hostname or ".facebook." not in splitted.hostname:
         return False
@@ -313,7 +316,10 @@ def parse_facebook_url(url, allow_relative_urls=False):
         if not is_facebook_url(url):
             return None
 
-    splitted = safe_urlsplit(url)
+    try:
+        splitted = safe_urlsplit(url)
+    except ValueError:
+        return None
 
     if not splitted.path or splitted.path == "/":
         return None
@@ -331,6 +337,9 @@ def parse_facebook_url(url, allow_relative_urls=False):
 
     if "/videos/" in splitted.path:
         parts = pathsplit(splitted.path)
+
+        if len(parts) < 3:
+            return None
 
         return FacebookVideo(parts[2], parent_id=parts[0])
 
@@ -365,6 +374,9 @@ def parse_facebook_url(url, allow_relative_urls=False):
     if "/photos/" in splitted.path:
         parts = pathsplit(splitted.path)
 
+        if len(parts) < 4:
+            return None
+
         parent_id_or_handle = parts[0]
         album_id = parts[2].replace("a.", "")
         photo_id = parts[3]
@@ -381,6 +393,9 @@ def parse_facebook_url(url, allow_relative_urls=False):
     # Obvious post path
     if "/posts/" in splitted.path:
         parts = pathsplit(splitted.path)
+
+        if len(parts) < 3 or (parts[0] == "groups" and len(parts) < 4):
+            return None
 
         if parts[0] == "groups":
             group_id_or_handle = parts[1]
@@ -403,7 +418,7 @@ def parse_facebook_url(url, allow_relative_urls=False):
         query = safe_parse_qs(splitted.query)
         parent_id = query.get("id", None)
 
-        if not parent_id:
+        if not parent_id or "story_fbid" not in query:
             return None
 
         return FacebookPost(query["story_fbid"][0], parent_id=parent_id[0])
@@ -412,7 +427,13 @@ def parse_facebook_url(url, allow_relative_urls=False):
     if "/groups/" in splitted.path:
         parts = pathsplit(splitted.path)
 
+        if len(parts) < 2:
+            return None
+
         if "/permalink/" in splitted.path:
+            if len(parts) < 4:
+                return None
+
             if is_facebook_id(parts[1]):
                 return FacebookPost(parts[3], group_id=parts[1])
 
@@ -426,12 +447,20 @@ def parse_facebook_url(url, allow_relative_urls=False):
     # Profile path
     if splitted.path == "/profile.php":
         query = safe_parse_qs(splitted.query)
+
+        if "id" not in query:
+            return None
+
         user_id = query["id"][0]
         return FacebookUser(user_id)
 
     # People path
     if splitted.path.startswith("/people"):
         parts = pathsplit(splitted.path)
+
+        if len(parts) < 3:
+            return None
+
         user_id = parts[2]
         return FacebookUser(user_id)
 
@@ -439,7 +468,7 @@ def parse_facebook_url(url, allow_relative_urls=False):
     if splitted.path:
         parts = pathsplit(splitted.path)
 
-        if not parts[0].endswith(".php"):
+        if parts and parts[0] and not parts[0].endswith(".php"):
             return FacebookHandle(parts[0])
 
     return None
